@@ -523,6 +523,13 @@ class IOLoop(Configurable):
                 # (If we neither cancel nor wait for the task, a warning
                 # will be logged).
                 assert future_cell["future"] is not None
+                if future_cell["future"].done():
+                    # The function finished in this same iteration: the
+                    # callback registered by run() is already scheduled and
+                    # stops the loop. Calling stop() here as well would end
+                    # the loop first and leave that callback behind, where it
+                    # would stop the next start() or run_sync() prematurely.
+                    return
                 if not future_cell["future"].cancel():
                     self.stop()
 
